@@ -48,6 +48,13 @@ const (
 	// values but get the keys "[F]0" and "[F]-0" -> signature
 	// negative_zero_split. Avoided by not generating negative float zeros.
 	avoidKnownNegativeZeroSplit = true
+	// SELECT agg FROM t HAVING cond without GROUP BY over no rows: Having's
+	// filter evaluates nothing, so the view is never grouped and Select then
+	// adds the one empty group unfiltered: COUNT(*) = 0 is returned although
+	// HAVING COUNT(*) >= 1 -> signature having_ignored_on_empty_input.
+	// Avoided by not adding HAVING when there are no keys and no row passes
+	// the WHERE clause.
+	avoidKnownHavingOnEmptyInput = true
 )
 
 var markers = []string{"[S]", "[I]", "[F]", "[D]", "[B]", "[T]", "[N]"}
@@ -500,6 +507,9 @@ func genTbl(t *rapid.T, opt tblOpt) tblCase {
 		if large {
 			c.HavingMin = fw.Range(t, "havingMinLarge", 2, 60)
 		}
+		if avoidKnownHavingOnEmptyInput && c.NKeys == 0 && n-c.WhereMinID <= 0 {
+			c.HavingMin = 0
+		}
 	}
 	return c
 }
@@ -614,6 +624,15 @@ func (c tblCase) aggSpecs() []aggSpec {
 		{"json_id", "JSON_AGG(id)", false},
 		{"ucnt", "ucnt(x)", false},
 		{"uhash", "uhash(id)", false},
+	}
+	if c.Strict && c.Src == "csv" {
+		// under strict-equal ORDER BY compares the id texts of a CSV table as text: ordering is C07's subject
+		for i, a := range specs {
+			if a.name == "list_desc" {
+				specs = append(specs[:i:i], specs[i+1:]...)
+				break
+			}
+		}
 	}
 	if c.NKeys > 0 {
 		specs = append(specs, aggSpec{"cnt_dk", "COUNT(DISTINCT k1)", false})
@@ -1338,6 +1357,9 @@ func (m *tblModel) checkGroup(s *run.Sess, sql string, specs []aggSpec, tbl run.
 			return false, fw.V("having_duplicate_group", "%s: group %s returned twice", hsql, k)
 		}
 		gotSet[k] = true
+		if !want[k] && c.NKeys == 0 && len(m.rows) == 0 {
+			return false, fw.V("having_ignored_on_empty_input", "%s: all (zero) records are one group with COUNT(*) = 0, which HAVING must filter out, but a row (%s) was returned", hsql, k)
+		}
 		if !want[k] {
 			return false, fw.V("having_wrong_group", "%s: group %s returned, but the groups of %q with COUNT(*) >= %d are %v", hsql, k, sql, c.HavingMin, fw.SortedKeys(want))
 		}
@@ -1662,6 +1684,17 @@ func (c setCase) keyCols() []string {
 	return cols
 }
 
+// tableCols: a constant first column keeps a CSV line of NULL keys from being an empty line.
+func (c setCase) tableCols() []string { return append([]string{"z"}, c.keyCols()...) }
+
+func withZ(rows [][]val.Val) [][]val.Val {
+	out := make([][]val.Val, len(rows))
+	for i, r := range rows {
+		out[i] = append([]val.Val{val.Str("r")}, r...)
+	}
+	return out
+}
+
 func (c setCase) sql() string {
 	cols := strings.Join(c.keyCols(), ", ")
 	op := c.Op
@@ -1699,7 +1732,7 @@ func checkSet(c setCase) (fw.Outcome, *fw.Violation) {
 		}
 		defer os.RemoveAll(d)
 		dir = d
-		if err := run.WriteFiles(dir, map[string]string{"a.csv": csvText(c.keyCols(), c.A), "b.csv": csvText(c.keyCols(), c.B)}); err != nil {
+		if err := run.WriteFiles(dir, map[string]string{"a.csv": csvText(c.tableCols(), withZ(c.A)), "b.csv": csvText(c.tableCols(), withZ(c.B))}); err != nil {
 			return o, fw.Harness("write: %v", err)
 		}
 	}
@@ -1709,7 +1742,7 @@ func checkSet(c setCase) (fw.Outcome, *fw.Violation) {
 	}
 	defer s.Close()
 	if c.Src == "temp" {
-		setup := declareSQL("a", c.keyCols(), c.A) + declareSQL("b", c.keyCols(), c.B)
+		setup := declareSQL("a", c.tableCols(), withZ(c.A)) + declareSQL("b", c.tableCols(), withZ(c.B))
 		if r := s.Exec(setup); r.Err != nil {
 			return o, fw.Harness("setup failed: %v\n%s", r.Err, setup)
 		}
